@@ -2,7 +2,8 @@
    dependency-ordering loop of [transform], transform_module / _gates / _submodules /
    _submodule / _connections / _connection / _connection_endpoint(_inner) and
    iter_for_kardinality_access.  [fx = true] is the code as it is now; [fx = false] is the
-   pinned code (before fix: 5295e98), whose three expect/assert sites are reachable. *)
+   pinned code: before fix: 5295e98 (its expect/assert sites are reachable) and before
+   fix: a6f4ffc (two submodule fields of one name and shape were not rejected). *)
 From Coq Require Import List NArith Bool.
 From DesVerif Require Import Ndl.Bytes Ndl.Grammar Ndl.Def.
 Import ListNotations.
@@ -193,6 +194,16 @@ Fixpoint has_dup_binding (args : list Generic) : bool :=
   | a :: r => is_binding r (g_binding a) || has_dup_binding r
   end.
 
+(* (4b) two submodule fields of one name and shape (both atoms or both clusters) *)
+Definition same_shape (a b : Kard) : bool :=
+  match a, b with Atom, Atom => true | Cluster _, Cluster _ => true | _, _ => false end.
+Fixpoint has_dup_field (subs : list (FieldDef * Node)) : bool :=
+  match subs with
+  | [] => false
+  | s :: r => existsb (fun o => beq (fd_ident (fst s)) (fd_ident (fst o)) && same_shape (fd_kard (fst s)) (fd_kard (fst o))) r
+              || has_dup_field r
+  end.
+
 Definition transform_module (fx : bool) (self : TypClause Generic) (def : ModuleDef) (nodes : archetypes)
            (links : list (ident * Link)) : res (Node * list Generic) :=
   if has_dup_binding (tc_args self) then Err K_SYMBOL_ALREADY_DEFINED else
@@ -207,6 +218,7 @@ Definition transform_module (fx : bool) (self : TypClause Generic) (def : Module
               end
             end;
   let '(gates, subs, conns0) := inh in
+  if fx && has_dup_field subs then Err K_SYMBOL_ALREADY_DEFINED else
   do conns <- transform_connections conns0 (md_conns def) subs gates links;
   Ok (mkNode (tc_ident self) subs gates conns, tc_args self).
 
